@@ -241,19 +241,6 @@ class FormulateRun:
         for atom, val in m.substitutions(de.raw):
             self.subs.setdefault(atom, val)  # in a chain of xreplace calls the first replacement of a symbol is the effective one
 
-    def second_call_difference(self) -> str | None:
-        """formulate() called again with the same arguments in the same interpreter (functions under functools.cache
-        hand out the object they returned the first time): how the second result differs from the first, if it does.
-        None also if the interpreter in use does not model the cache."""
-        from ..dense import Mat, first_difference
-
-        if not hasattr(self.model.ex, "memo"):
-            return None
-        again = self._de.run()
-        if not isinstance(again, Mat):
-            raise AnalysisError(f"{self.fn.qual}: the second call does not return a matrix")
-        return first_difference(again, self.value)
-
     def param_call(self, value):
         """(qualname, bound arguments) if ``value`` is exactly one recorded call of a parametrization."""
         from ..ncterms import _single_atom
@@ -465,18 +452,6 @@ def check_cached_matrices_not_mutated(ctx: Check, tree: Tree) -> None:
                       "the cached matrix is shared by all later calls with the same n_channels: the second formulate() starts from the already modified matrix")
     if not bad:
         ctx.ok("R-CACHE", MOD.replace(".", "/"), f"the {len(sources)} memoised matrix builders' results are only read / substituted (xreplace), never written")
-    second_call_agrees(ctx, tree, ("NonRelativisticKMatrix", "RelativisticKMatrix"))
-
-
-def second_call_agrees(ctx: Check, tree: Tree, classes: tuple) -> None:
-    """R-CACHE on the interpreted function: formulate() called twice (two channels, explicit matrices, memoised
-    builders hand out the same object again) returns the same matrix - wherever and however a write happens."""
-    for cls_name in classes:
-        run = formulate_run(tree, cls_name)
-        diff = run.second_call_difference()
-        ctx.verdict(diff is None, "R-CACHE", f"{run.fn.qual}::second-call", tree.loc(run.fn.node),
-                    f"{cls_name}.formulate: a second call with the same arguments returns the same matrix as the first (nothing is written into a memoised matrix)",
-                    None if diff is None else {"second call": diff})
 
 
 # --------------------------------------------------------------------------- R-POLESIGN
